@@ -47,6 +47,7 @@ package config
 //@   trusted
 //@ func parsePositiveDuration
 //@   trusted
+//@   ensures result1 == nil ==> result0 > 0
 //@ func secrets.ValidateRef
 //@   trusted
 //@ func compileForwardAuthConfig
@@ -61,10 +62,16 @@ package config
 //@   trusted
 //@   modifies ValidationResult.*
 //@   ensures res != nil ==> len(res.Errors) >= old(len(res.Errors))
+//@ spec
+//@ pred retryShapeOK(r RetryConfig) := r.Max > 0 && r.Base > 0 && r.Base <= r.Cap && (nan(r.Jitter) || (r.Jitter >= 0 && r.Jitter <= 1))
+
+// C06: a retry block that compiles yields a configuration inside the range the dispatcher's bounds are proved for
 //@ func compileRetry
-//@   trusted
+//@   requires res != nil
 //@   modifies ValidationResult.*
-//@   ensures res != nil ==> len(res.Errors) >= old(len(res.Errors))
+//@   ensures [errors_only_grow] len(res.Errors) >= old(len(res.Errors))
+//@   ensures [C06:compiled_retry_is_in_range] result1 && retryShapeOK(base) ==> retryShapeOK(result0)
+//@   ensures [C06:rejected_retry_reports_an_error] !result1 ==> len(res.Errors) > old(len(res.Errors))
 //@ func resolveValue
 //@   trusted
 //@   modifies ValidationResult.*
